@@ -103,6 +103,11 @@ def run_history(ops, cluster, sc, tag, out):
             removed += 1
         out["sets"]["model_states"].add(json.dumps(sorted((k, v["v"], sorted(v["meta"].items()), v["ovr"])
                                                           for k, v in model.d.items()), default=str))
+        if op[0] == "reopen":  # new backend objects (cold caches, nothing in hand) over the same directories
+            fresh = dict(make_backends(sc, tag))
+            backs = [(name, b if name == "memory" else fresh[name]) for name, b in backs]
+            out["obs"]["stores_reopened"] = out["obs"].get("stores_reopened", 0) + 1
+            continue
         for name, b in backs:
             if name in dead:
                 continue
